@@ -112,3 +112,9 @@ Proof.
   - apply fp_some; [discriminate|repeat constructor].
   - apply ep_some; [left; reflexivity|discriminate|repeat constructor].
 Qed.
+(* the hypothesis of C25_marshal_unknown_total_parsed is satisfiable: the
+   scanner accepts the byte string of C25_ex_unknown *)
+Example C25_ex_unknown_wellformed :
+  exists fs, parse_fields (x00 :: [x0b; x08; x01; x8c; x00; x15; x01; x00; x00; x00]) default_dep
+                          [x0b; x08; x01; x8c; x00; x15; x01; x00; x00; x00] [] = Ok fs.
+Proof. eexists. vm_compute. reflexivity. Qed.
